@@ -428,10 +428,10 @@ func (tt *TermTable) Eq(a, b *Term) *Term {
 		}
 	}
 	// eq(ite(c,k1,k2), k) with constants
-	if b.IsConst() && a.op == OIte && a.args[1].IsConst() && a.args[2].IsConst() {
+	if b.IsConst() && a.op == OIte && (a.args[1].IsConst() || a.args[2].IsConst()) {
 		return tt.Ite(a.args[0], tt.Eq(a.args[1], b), tt.Eq(a.args[2], b))
 	}
-	if a.IsConst() && b.op == OIte && b.args[1].IsConst() && b.args[2].IsConst() {
+	if a.IsConst() && b.op == OIte && (b.args[1].IsConst() || b.args[2].IsConst()) {
 		return tt.Ite(b.args[0], tt.Eq(b.args[1], a), tt.Eq(b.args[2], a))
 	}
 	// zext(x) == const
@@ -584,6 +584,10 @@ func (tt *TermTable) BvBin(op Op, a, b *Term) *Term {
 			if a.op == OZExt && new(big.Int).And(b.c, mask(a.args[0].sort.W)).Cmp(mask(a.args[0].sort.W)) == 0 {
 				return a
 			}
+			// x & (2^k-1)  ==  zero_extend(extract[k-1:0] x)   (lets the extract sink into + - *)
+			if k, ok := lowMaskBits(b.c); ok && k > 0 && k < w {
+				return tt.ZExt(w-k, tt.Extract(k-1, 0, a))
+			}
 		}
 		if a == b {
 			return a
@@ -665,6 +669,25 @@ func (tt *TermTable) BvCmp(op Op, a, b *Term) *Term {
 		}
 		if b.IsConst() && b.c.Cmp(mask(w)) == 0 {
 			return tt.tru
+		}
+	}
+	// comparison of an ite with constant arms against a constant: push inside
+	if b.IsConst() && a.op == OIte && (a.args[1].IsConst() || a.args[2].IsConst()) {
+		return tt.Ite(a.args[0], tt.BvCmp(op, a.args[1], b), tt.BvCmp(op, a.args[2], b))
+	}
+	if a.IsConst() && b.op == OIte && (b.args[1].IsConst() || b.args[2].IsConst()) {
+		return tt.Ite(b.args[0], tt.BvCmp(op, a, b.args[1]), tt.BvCmp(op, a, b.args[2]))
+	}
+	// signed comparison of two values whose sign bit is known to be clear is unsigned
+	if op == OBvSlt || op == OBvSle {
+		nonneg := func(t *Term) bool {
+			return (t.op == OZExt && t.i1 >= 1) || (t.IsConst() && t.c.Bit(w-1) == 0)
+		}
+		if nonneg(a) && nonneg(b) {
+			if op == OBvSlt {
+				return tt.BvCmp(OBvUlt, a, b)
+			}
+			return tt.BvCmp(OBvUle, a, b)
 		}
 	}
 	// comparisons of zero-extended values against constants / each other
@@ -931,6 +954,12 @@ func (tt *TermTable) IntCmp(op Op, a, b *Term) *Term {
 	}
 	if a == b {
 		return tt.Bool(op == OLe)
+	}
+	if b.IsConst() && a.op == OIte && (a.args[1].IsConst() || a.args[2].IsConst()) {
+		return tt.Ite(a.args[0], tt.IntCmp(op, a.args[1], b), tt.IntCmp(op, a.args[2], b))
+	}
+	if a.IsConst() && b.op == OIte && (b.args[1].IsConst() || b.args[2].IsConst()) {
+		return tt.Ite(b.args[0], tt.IntCmp(op, a, b.args[1]), tt.IntCmp(op, a, b.args[2]))
 	}
 	return tt.mk(&Term{op: op, sort: BoolSort, args: []*Term{a, b}})
 }
